@@ -29,16 +29,27 @@ def make_sim(kind, **kw):
         kind = 'N'      # (survey switch: every aiohttp history on tornado)
     if CURRENT['rec'] is not None and kind in HTTPB:
         CURRENT['rec'].count('engine_' + {'H': 'aiohttp', 'N': 'tornado'}[kind])
-    if kind == 'H':
-        # the asyncio server behind the real aiohttp adapter and web server
-        from vf.simh import SimH
+    if kind in HTTPB:
+        # the asyncio server behind the real aiohttp (H) / tornado (N)
+        # adapter and web server
+        if kind == 'H':
+            from vf.simh import SimH as cls
+        else:
+            from vf.simn import SimN as cls
         kw.pop('body_chunks', None)
-        return SimH(**kw)
-    if kind == 'N':
-        # the asyncio server behind the real tornado adapter and web server
-        from vf.simn import SimN
-        kw.pop('body_chunks', None)
-        return SimN(**kw)
+        sim = cls(**kw)
+        # both frameworks negotiate permessage-deflate when the client offers
+        # it (browsers always do): the simulated client offers it for about
+        # half of the server configurations (a replay-stable choice)
+        import zlib
+        plain = sorted((k, v) for k, v in (kw.get('server_kwargs') or
+                                           {}).items()
+                       if isinstance(v, (str, int, float, bool, tuple,
+                                         type(None))))
+        sim.ws_offer_deflate = zlib.crc32(repr(plain).encode()) % 2 == 1
+        if sim.ws_offer_deflate and CURRENT['rec'] is not None:
+            CURRENT['rec'].count('sims_offering_permessage_deflate')
+        return sim
     return SimA(**kw)
 
 
